@@ -406,6 +406,45 @@ bool is_unquoted_safe(jsoncons::string_view str, char delimiter = ',')
     return true;
 }
 
+// TOON knows exactly five escape sequences: backslash, double quote, \n, \r and \t. Every other
+// character, control characters included, is written as it is: a TOON decoder rejects any other
+// escape sequence, so the JSON escapes for backspace, form feed and \uXXXX must not be used here.
+template <typename Sink>
+void escape_toon_string(const char* s, std::size_t length, Sink& sink)
+{
+    const char* end = s + length;
+    for (const char* it = s; it != end; ++it)
+    {
+        const char c = *it;
+        switch (c)
+        {
+            case '\\':
+                sink.push_back('\\');
+                sink.push_back('\\');
+                break;
+            case '\"':
+                sink.push_back('\\');
+                sink.push_back('\"');
+                break;
+            case '\n':
+                sink.push_back('\\');
+                sink.push_back('n');
+                break;
+            case '\r':
+                sink.push_back('\\');
+                sink.push_back('r');
+                break;
+            case '\t':
+                sink.push_back('\\');
+                sink.push_back('t');
+                break;
+            default:
+                sink.push_back(c);
+                break;
+        }
+    }
+}
+
 template <typename Sink>
 void encode_string(jsoncons::string_view str, char delimiter, Sink& sink)
 {
@@ -416,7 +455,7 @@ void encode_string(jsoncons::string_view str, char delimiter, Sink& sink)
     else
     {
         sink.push_back('\"');
-        jsoncons::detail::escape_string(str.data(), str.size(), false, false, sink);
+        escape_toon_string(str.data(), str.size(), sink);
         sink.push_back('\"');
     }
 }
@@ -431,7 +470,7 @@ void encode_key(jsoncons::string_view key, Sink& sink)
     else
     {
         sink.push_back('\"');
-        jsoncons::detail::escape_string(key.data(), key.size(), false, false, sink);
+        escape_toon_string(key.data(), key.size(), sink);
         sink.push_back('\"');
     }
 }
